@@ -127,6 +127,10 @@ fn record(out: &mut ShardOut, cfg: &Cfg, kt: KeyType, ops: &[Op], opts: &RunOpts
         if vv.sig != orig_sig {
             // the shrunk run may land in a different pre-state class; report the class it shows
         }
+        let mut extra = BTreeMap::new();
+        if let Some(c) = opts.clone_swap_at {
+            extra.insert("clone-swap".to_string(), c.to_string());
+        }
         out.add(Found {
             v: vv.clone(),
             cfg: cfg.clone(),
@@ -134,7 +138,7 @@ fn record(out: &mut ShardOut, cfg: &Cfg, kt: KeyType, ops: &[Op], opts: &RunOpts
             ops: small,
             universe: opts.universe.clone(),
             seeds: opts.seeds,
-            extra: BTreeMap::new(),
+            extra,
         });
         let _ = &mut vv;
     }
@@ -652,6 +656,9 @@ pub fn engine_suite(ctx: &Ctx) -> ShardOut {
         opts.lookup_audit = props.c03 && rng.chance(1, 2);
         opts.seeds = [rng.next(), rng.next(), rng.next(), rng.next()];
         opts.record_sample = out.cov.samples.len() < 4;
+        if matches!(prop, "C01" | "C03" | "C04") && matches!(kind, Kind::Lru | Kind::Slru | Kind::Wtlfu) && rng.chance(1, 3) {
+            opts.clone_swap_at = Some(rng.below(ops.len() as u64) as usize);
+        }
         let r = run_history(&cfg, kt, &ops, &opts, &mut out.cov);
         done += r.steps_done.max(1) as u64;
         if let Some(e) = &r.build_err {
